@@ -1,3 +1,4 @@
 //! Canonical numeric encoding of spl_frontend's observable values.
 //! The same encoding is defined independently in Coq (coq/theories/Judge/Dump.v).
 pub mod encode;
+pub mod encode_ast;
